@@ -450,7 +450,7 @@ def run_limited(cmd, cwd, timeout, mem_gb, logfile):
     return status or ("exit%d" % p.returncode), time.time() - t0, peak / 1024 / 1024
 
 
-CHECK_RE = re.compile(r"^Check (\d+): (\S+)\n\t - Status: (\w+)\n\t - Description: \"(.*)\"\n\t - Location: (.*)$", re.M)
+CHECK_RE = re.compile(r"^Check (\d+): (.+)\n\t - Status: (\w+)\n\t - Description: \"(.*)\"\n\t - Location: (.*)$", re.M)
 
 
 def parse_kani_log(text):
